@@ -48,6 +48,17 @@ chk("C20",
     "machine-checked proof in Coq (Q arithmetic; MathComp matrix algebra) + translator/exact-rational correspondence",
     "DESIGN.md section 6, C20")
 
+chk("C04",
+    "Coq theorems over the reals: the code's log-sum-exp with log(n_t)-log(N) offsets equals beta*l - ln sum_t (n_t/N) "
+    "exp(beta_t l - z_t); evidence = ln of the mean unnormalised weight; normalised weights sum to 1; invariance under "
+    "permutation of iterations and of samples; the likelihood-shift law; max <= lse <= max + ln T. For every T, batch "
+    "sizes, temperatures, evidences, log-likelihoods. Tie: regenerated Gen.MIS expression pieces + Link; verified "
+    "interval enclosures (Coq Interval, 100 bits) of the specification against the implementation's doubles.",
+    "Trusted: Coq kernel; Reals axioms, classic, funext (named in evidence); python translator/harness; logaddexp.reduce "
+    "modelled as ln-sum-exp; float rounding idealised (enclosure widened by 1e-11*scale).",
+    "machine-checked proof in Coq (real analysis: exp/ln identities, permutation sums) + translator/verified-enclosure correspondence",
+    "DESIGN.md section 6, C04")
+
 for pid in [f"C{i:02d}" for i in range(1, 21)]:
     if pid not in CHECKS:
         NA[pid] = "check not built yet in this session (planned in DESIGN.md section 6); not claimed"
